@@ -167,6 +167,13 @@ fn nontrivial(prop: &str, out: &RunOutput) -> bool {
         "C02" => ok("send") >= 2 && out.stats.polls_compared >= 5,
         "C03" => out.stats.restarts >= 1 && ok("send") >= 1,
         "C16" => ok("send") >= 1 && out.stats.audits >= 1,
+        "C05" => out.stats.restarts >= 1 && (ok("create_stream") + ok("create_topic") + ok("create_group") + ok("create_user")) >= 3,
+        "C06" => (ok("create_stream") + ok("create_topic") + ok("create_group") + ok("delete_stream") + ok("delete_topic") + ok("update_topic") + ok("update_stream")) >= 5,
+        "C14" => ok("send") >= 2 && n("job_maintain") >= 1 && n("jump") >= 1,
+        "C15" => ok("send") >= 2 && n("send") >= 4,
+        "C17" => ok("send") >= 4,
+        "C18" => ok("send") >= 3,
+        "C07" => ok("store_offset") >= 1 && ok("get_offset") >= 1,
         _ => n("send") + n("poll") >= 1 || out.steps > 100,
     }
 }
